@@ -614,6 +614,33 @@ def gen_case(rng, idx):
                     i += 1
         tasks.append(task)
 
+    # data shared by several tasks: each of them copies the same reference
+    # file to the same place in the pilot sandbox (agent side); the last one
+    # then fails on a later directive.  What the earlier tasks staged stays.
+    if len(tasks) >= 2 and rng.random() < 0.25:
+        k = rng.randint(2, min(3, len(tasks)))
+        sharing = rng.sample(tasks, k)
+        for n, task in enumerate(sharing):
+            t  = int(task['uid'].split('.')[-1])
+            sh = {'action': rpc.COPY, 'form': 'dict',
+                  'src': {'loc': 'resource', 'style': 'schema',
+                          'rel': 'shared_ref_src.dat'},
+                  'tgt': {'loc': 'pilot', 'style': 'schema',
+                          'rel': 'shared_ref.dat'},
+                  'kind': 'file', 'fault': None, 'tag': 'sh%d' % t,
+                  'ctag': 'shared', 'chain': None}
+            task['inputs'].insert(0, sh)
+        last = sharing[-1]
+        t    = int(last['uid'].split('.')[-1])
+        last['inputs'].append(
+                 {'action': rpc.COPY, 'form': 'dict',
+                  'src': {'loc': 'resource', 'style': 'schema',
+                          'rel': 'not_there_%d.dat' % t},
+                  'tgt': {'loc': 'task', 'style': 'schema',
+                          'rel': 'never_%d.dat' % t},
+                  'kind': 'file', 'fault': 'missing', 'tag': 'shx%d' % t,
+                  'chain': None})
+
     # names like `tmp` or `usr` are not unique: keep the first use per place,
     # give the others their regular (tag carrying) name back
     used = set()
